@@ -860,18 +860,17 @@ func (schema *Schema) PermitsNull() bool {
 
 // IsEmpty tells whether schema is equivalent to the empty schema `{}`.
 func (schema *Schema) IsEmpty() bool {
-	return schema.isEmpty(nil)
+	return schema.isEmpty(map[*Schema]struct{}{})
 }
 
-// isEmpty is IsEmpty with the chain of schemas being examined: a schema reached again through
-// its own sub-schemas (a recursive schema without keywords of its own) adds no constraint.
-func (schema *Schema) isEmpty(stack []*Schema) bool {
-	for _, existing := range stack {
-		if existing == schema {
-			return true
-		}
+// isEmpty is IsEmpty with the schemas already examined: a schema reached again through its own
+// sub-schemas (a recursive schema without keywords of its own) adds no constraint, and a schema
+// shared by several sub-schemas is examined once (the first one with a keyword ends the search).
+func (schema *Schema) isEmpty(seen map[*Schema]struct{}) bool {
+	if _, ok := seen[schema]; ok {
+		return true
 	}
-	stack = append(stack, schema)
+	seen[schema] = struct{}{}
 
 	if schema.Type != nil || schema.Format != "" || len(schema.Enum) != 0 ||
 		schema.UniqueItems || schema.ExclusiveMin || schema.ExclusiveMax ||
@@ -887,17 +886,17 @@ func (schema *Schema) isEmpty(stack []*Schema) bool {
 		// "not" constrains the value even when its sub-schema is empty: `not: {}` matches nothing
 		return false
 	}
-	if ap := schema.AdditionalProperties.Schema; ap != nil && ap.Value != nil && !ap.Value.isEmpty(stack) {
+	if ap := schema.AdditionalProperties.Schema; ap != nil && ap.Value != nil && !ap.Value.isEmpty(seen) {
 		return false
 	}
 	if apa := schema.AdditionalProperties.Has; apa != nil && !*apa {
 		return false
 	}
-	if items := schema.Items; items != nil && items.Value != nil && !items.Value.isEmpty(stack) {
+	if items := schema.Items; items != nil && items.Value != nil && !items.Value.isEmpty(seen) {
 		return false
 	}
 	for _, s := range schema.Properties {
-		if ss := s.Value; ss != nil && !ss.isEmpty(stack) {
+		if ss := s.Value; ss != nil && !ss.isEmpty(seen) {
 			return false
 		}
 	}
@@ -906,12 +905,12 @@ func (schema *Schema) isEmpty(stack []*Schema) bool {
 		return false
 	}
 	for _, s := range schema.AnyOf {
-		if ss := s.Value; ss != nil && !ss.isEmpty(stack) {
+		if ss := s.Value; ss != nil && !ss.isEmpty(seen) {
 			return false
 		}
 	}
 	for _, s := range schema.AllOf {
-		if ss := s.Value; ss != nil && !ss.isEmpty(stack) {
+		if ss := s.Value; ss != nil && !ss.isEmpty(seen) {
 			return false
 		}
 	}
